@@ -55,6 +55,12 @@ func (p *Pattern) Match(s string, init int, budget uint64) (captures []Capture, 
 	return captures, budget - matcher.budget
 }
 
+// StartAnchored returns true if the pattern starts with '^', i.e. it can only
+// match at the position where matching starts (see MatchFromStart).
+func (p *Pattern) StartAnchored() bool {
+	return p.startAnchor
+}
+
 // A Capture represents a matching substring.
 type Capture struct {
 	start, end int
